@@ -946,4 +946,75 @@ pub(crate) mod verif_pc {
     fn pc_register_two_locals_lagging_second() {
         register_two_locals(false);
     }
+
+    /// handle_rollback_and_save with SPARSE saving (adjust_gamestate stubbed by the recorder): nothing
+    /// is saved while the last saved frame is less than max_prediction frames behind; once it is, the
+    /// current frame is saved directly if it is already confirmed, otherwise a rollback to the last
+    /// saved state is started (which re-saves on the way) - so the saved state never falls out of the
+    /// window a rollback may need.
+    #[kani::proof]
+    #[kani::unwind(6)]
+    #[kani::stub(alloc::fmt::format, stub_format)]
+    #[kani::stub(crate::sessions::p2p_session::P2PSession::adjust_gamestate, stub_adjust)]
+    fn pc_rollback_and_save_sparse() {
+        let w: usize = 3;
+        let mut s = mk_session_noep::<CfgRL>(w, true, 0, DesyncDetection::Off);
+        let c: Frame = kani::any();
+        kani::assume(c >= 3 && c < (1 << 20));
+        vs::set_current_frame(&mut s.sync_layer, c);
+        let saved: Frame = kani::any();
+        kani::assume(saved >= c - w as Frame && saved <= c && saved >= 0);
+        vs::set_last_saved(&mut s.sync_layer, saved);
+        let confirmed: Frame = kani::any();
+        kani::assume(confirmed >= saved && confirmed <= c + 2);
+        // (the third case - window exhausted and the frame not confirmed: roll back to the last saved state -
+        //  - reaches adjust_gamestate, whose sparse behaviour is decided by pc_adjust_sparse_*)
+        kani::assume(c - saved < w as Frame || confirmed >= c);
+        ADJ_CALLS.store(0, Ordering::Relaxed);
+        let mut reqs: Vec<GgrsRequest<CfgRL>> = Vec::with_capacity(4);
+        s.handle_rollback_and_save(confirmed, &mut reqs);
+        if c - saved < w as Frame {
+            assert!(reqs.is_empty() && ADJ_CALLS.load(Ordering::Relaxed) == 0, "sparse: no save needed yet");
+        } else if confirmed >= c {
+            assert!(ADJ_CALLS.load(Ordering::Relaxed) == 0 && reqs.len() == 1);
+            match &reqs[0] {
+                GgrsRequest::SaveGameState { frame, .. } => assert!(*frame == c),
+                _ => assert!(false, "expected SaveGameState"),
+            }
+        }
+        kani::cover!(c - saved == w as Frame && confirmed >= c, "window exhausted, frame confirmed");
+        kani::cover!(c - saved < w as Frame, "nothing to do");
+        core::mem::forget(reqs);
+        core::mem::forget(s);
+    }
+
+    /// (NOT REGISTERED: runs out of memory at 16 GB; the rollback itself is decided by pc_adjust_sparse_*)
+    /// Sparse saving, window exhausted (last saved frame = current - window) and the current frame not
+    /// yet confirmed: the real handle_rollback_and_save rolls back to the last saved state and re-saves
+    /// exactly the confirmed frame on the way, so afterwards the last saved frame is the confirmed one.
+    #[kani::proof]
+    #[kani::unwind(6)]
+    #[kani::stub(alloc::fmt::format, stub_format)]
+    fn x_sparse_resave_by_rollback() {
+        let w: usize = 2;
+        let c: Frame = 9;
+        let saved: Frame = 7;
+        let confirmed: Frame = 8;
+        let mut s = mk_session_noep::<CfgRL>(w, true, 0, DesyncDetection::Off);
+        let v0: [u8; crate::input_queue::verif_q::RING] = kani::any();
+        let v1: [u8; crate::input_queue::verif_q::RING] = kani::any();
+        vs::install(&mut s.sync_layer, c, saved, saved, queue_with(c - 1, 6, &v0), queue_with(confirmed, 6, &v1));
+        vs::cell_save(&s.sync_layer, saved as usize % (w + 1), saved, kani::any());
+        let mut reqs: Vec<GgrsRequest<CfgRL>> = Vec::with_capacity(8);
+        s.handle_rollback_and_save(confirmed, &mut reqs);
+        assert!(reqs.len() == 4);
+        assert!(matches!(&reqs[0], GgrsRequest::LoadGameState { frame: 7, .. }));
+        assert!(matches!(&reqs[1], GgrsRequest::AdvanceFrame { .. }));
+        assert!(matches!(&reqs[2], GgrsRequest::SaveGameState { frame: 8, .. }));
+        assert!(matches!(&reqs[3], GgrsRequest::AdvanceFrame { .. }));
+        assert!(s.sync_layer.last_saved_frame() == confirmed && s.sync_layer.current_frame() == c);
+        kani::cover!(true, "reached");
+        core::mem::forget(reqs);
+        core::mem::forget(s);
+    }
 }
